@@ -28,6 +28,8 @@ type Job struct {
 	Out        string   `json:"out"`
 	MaxViol    int      `json:"max_viol"`
 	Workers    int      `json:"workers"`
+	Light      bool     `json:"light"`
+	Mutants    int      `json:"mutants"` // near-miss variants derived from every file input (seeded)
 	Extra      map[string]interface{} `json:"extra"`
 }
 
@@ -185,6 +187,9 @@ func forEachInput(job *Job, mk func(w int) func(in []byte)) {
 			}
 			for i := w; i < len(fileInputs); i += W {
 				run(fileInputs[i])
+				for m := 0; m < job.Mutants; m++ {
+					run(mutate(fileInputs[i], uint64(job.Seed)*1000003+uint64(i)*131+uint64(m)))
+				}
 			}
 		}(w)
 	}
@@ -204,7 +209,7 @@ func runExplore(job *Job) Result {
 	var samples []string
 	var smu sync.Mutex
 	forEachInput(job, func(w int) func(in []byte) {
-		e := &Explorer{Props: props, Shifts: job.Shifts, JunkBytes: []byte("\"<;\r\n9,x"), ExtAtoms: ext, MaxViol: job.MaxViol}
+		e := &Explorer{Props: props, Shifts: job.Shifts, JunkBytes: []byte("\"<;\r\n9,x"), ExtAtoms: ext, MaxViol: job.MaxViol, Light: job.Light, Seed: job.Seed}
 		exps[w] = e
 		cnt := 0
 		return func(in []byte) {
@@ -234,4 +239,39 @@ func runExplore(job *Job) Result {
 	}
 	res.Samples = samples
 	return res
+}
+
+var mutAtoms = [][]byte{{' '}, {'\t'}, {'\r'}, {'\n'}, {'\r', '\n'}, {'"'}, {'\\'}, {'<'}, {'>'}, {';'}, {','}, {':'}, {'='}, {'0'}, {'9'}, {'a'}, {0}, {200}, {'*'}}
+
+// mutate: one seeded single-atom edit (delete / insert / substitute / transpose / truncate)
+func mutate(in []byte, h uint64) []byte {
+	rnd := func() uint64 {
+		h ^= h << 13
+		h ^= h >> 7
+		h ^= h << 17
+		return h
+	}
+	h = h*0x9E3779B97F4A7C15 + 1
+	rnd()
+	out := append([]byte(nil), in...)
+	if len(out) < 2 {
+		return out
+	}
+	pos := int(rnd() % uint64(len(out)))
+	a := mutAtoms[rnd()%uint64(len(mutAtoms))]
+	switch rnd() % 5 {
+	case 0: // delete
+		out = append(out[:pos], out[pos+1:]...)
+	case 1: // insert
+		out = append(out[:pos], append(append([]byte(nil), a...), out[pos:]...)...)
+	case 2: // substitute
+		out = append(out[:pos], append(append([]byte(nil), a...), out[pos+1:]...)...)
+	case 3: // transpose
+		if pos+1 < len(out) {
+			out[pos], out[pos+1] = out[pos+1], out[pos]
+		}
+	case 4: // truncate
+		out = out[:pos+1]
+	}
+	return out
 }
